@@ -47,11 +47,12 @@ JudgeDirect(e) == JudgeObs(e.in, e.direct, Names("direct"))
 JudgeE2E(e) == JudgeObs(e.in, e.e2e, Names("e2e"))
 
 (* Model conformance (never a verdict): the algorithm-level transcription predicts the exact list. *)
-Predicted(in) == IF in.kind = "range" THEN SplitRange(in.s, in.e, in.step, in.iv) ELSE SplitMeta(in.s, in.e, in.iv)
-Static(in) == "dyn" \notin DOMAIN in
+IsDyn(in) == "dyn" \in DOMAIN in
+Interval(in) == IF IsDyn(in) THEN DynInterval(in.e - in.s, in.dyn.min, in.dyn.max, in.dyn.shards) ELSE in.iv
+Predicted(in) == IF in.kind = "range" THEN SplitRange(in.s, in.e, in.step, Interval(in)) ELSE SplitMeta(in.s, in.e, in.iv)
 Drift(e) ==
     \/ e.direct.ran /\ e.direct.err = "" /\ e.direct.subs # Predicted(e.in)
-    \/ e.e2e.ran /\ e.e2e.err = "" /\ Static(e.in) /\ e.e2e.subs # Predicted(e.in)
+    \/ e.e2e.ran /\ e.e2e.err = "" /\ e.e2e.subs # Predicted(e.in)
 
 VARIABLE l
 TraceInit == l = 1
